@@ -83,6 +83,15 @@ def task_bdd(t):
             if bdd.count(u) != nm:
                 rec('count-default', 'count(u) is not the number of models over the support',
                     case, got=bdd.count(u), want=nm)
+            if bdd.count(u, nvars=None) != nm or bdd.count(u, nvars=len(sup)) != nm:
+                rec('count-keyword', 'count(u, nvars=...) given by keyword is wrong', case)
+            if auto:
+                if u.count() != nm or u.count(nvars=len(sup) + 1) != 2 * nm:
+                    rec('count-method', 'Function.count() is wrong', case)
+                p0 = u.pick()
+                if (p0 is None) != (fu == 0) or (
+                        p0 is not None and (U.cube_mask(p0) & ~fu & U.full or set(p0) != sup)):
+                    rec('pick-method', 'Function.pick() without care variables is wrong', case)
             for k in range(0, len(sup) + 4):
                 rep.add('evaluations')
                 if k < len(sup):
